@@ -1,6 +1,6 @@
 use itertools::Itertools;
 
-use crate::ir::decl::{DeclKind, Module};
+use crate::ir::decl::{Decl, DeclKind, Module};
 use crate::ir::pl;
 use crate::ir::pl::PlFold;
 use crate::pr::{Ty, TyKind, TyTupleField};
@@ -289,7 +289,24 @@ impl Resolver<'_> {
             return vec![wildcard_field];
         }
 
-        for (name, decl) in module.names.iter().sorted_by_key(|(_, d)| d.order) {
+        // A module (columns of one input) takes the position of its first column.
+        // The name breaks ties, so the result does not depend on the iteration
+        // order of the map.
+        let position = |decl: &Decl| match &decl.kind {
+            DeclKind::Module(sub) => sub
+                .names
+                .values()
+                .filter(|d| matches!(d.kind, DeclKind::Column(_) | DeclKind::Infer(_)))
+                .map(|d| d.order)
+                .min()
+                .unwrap_or(decl.order),
+            _ => decl.order,
+        };
+        for (name, decl) in module
+            .names
+            .iter()
+            .sorted_by_key(|(name, d)| (position(d), name.as_str()))
+        {
             res.push(match &decl.kind {
                 DeclKind::Module(submodule) => {
                     let prefix = [prefix.to_vec(), vec![name]].concat();
